@@ -8,7 +8,101 @@ use bytes::Bytes;
 use symrt::{check_bool, choice, cover, note};
 
 pub fn harnesses() -> Vec<Harness> {
-    vec![Harness { name: "c09_fetch_from_holder", property: "C09", f: c09_fetch_from_holder, about: "a node fetches an advertised key from the advertising holder: what the holder stores is accepted and kept byte-identical; content for another key or garbage is not stored; the network is asked only when the holder failed" }]
+    vec![
+        Harness { name: "c09_divergent_replica_fetched", property: "C09", f: c09_divergent_replica_fetched, about: "the node holds one version of a mutable record, a neighbour another: fetching the neighbour's version leaves the merge (union of register operations / of transactions, the scratchpad with the higher counter)" },
+        Harness { name: "c09_fetch_from_holder", property: "C09", f: c09_fetch_from_holder, about: "a node fetches an advertised key from the advertising holder: what the holder stores is accepted and kept byte-identical; content for another key or garbage is not stored; the network is asked only when the holder failed" },
+    ]
+}
+
+/// One replication step between two honest neighbours that hold different versions of a mutable record. Both run this
+/// same code in the other direction, so "after the step the node holds merge(own, fetched)" for a commutative merge
+/// is what makes the pair converge after one round each way.
+fn c09_divergent_replica_fetched() {
+    use crate::put_validation::harness::{sk, the_register, the_tx};
+    use crate::scratchpad::access as pad_access;
+    use crate::shim::Counter;
+    use ant_protocol::storage::{try_deserialize_record, try_serialize_record, RecordKind};
+    use ant_registers::{RegisterOp, SignedRegister};
+    use std::collections::BTreeSet as StdBTreeSet;
+    use symrt::env::block_on;
+    use symrt::SymU;
+    let c = new_ctx();
+    let holder = peer(1);
+    let kind = [Kind::Register, Kind::Transaction, Kind::Scratchpad][choice(3)];
+    let rec = |key: &RecordKey, value: Vec<u8>| Record { key: key.clone(), value, publisher: None, expires: None };
+    // (key, what the node holds, what the holder serves)
+    let (key, own, theirs) = match kind {
+        Kind::Register => {
+            let base = the_register(3);
+            let addr = *base.address();
+            let key = NetworkAddress::from_register_address(addr).to_record_key();
+            // the two replicas hold the same number of operations (n each), none shared
+            let n = 1 + choice(2);
+            let mk = |tag: u8, signer: u8| -> SignedRegister {
+                let mut crdt = ant_registers::RegisterCrdt::new(addr);
+                let mut sr = base.clone();
+                for i in 0..n {
+                    let (_h, _a, op) = crdt.write(vec![tag, i as u8], &StdBTreeSet::new()).expect("write");
+                    sr.add_op(RegisterOp::new(addr, op, &sk(signer))).expect("add op");
+                }
+                sr
+            };
+            let (a, b) = (mk(0xa0, 3), mk(0xb0, 5));
+            (key.clone(), rec(&key, try_serialize_record(&a, RecordKind::Register).unwrap().to_vec()), rec(&key, try_serialize_record(&b, RecordKind::Register).unwrap().to_vec()))
+        }
+        Kind::Transaction => {
+            let (t1, t2) = (the_tx(2, 1, 2), the_tx(2, 2, 2));
+            let key = NetworkAddress::from_transaction_address(t1.address()).to_record_key();
+            (key.clone(), rec(&key, try_serialize_record(&vec![t1], RecordKind::Transaction).unwrap().to_vec()), rec(&key, try_serialize_record(&vec![t2], RecordKind::Transaction).unwrap().to_vec()))
+        }
+        _ => {
+            let (ca, cb) = (Counter(SymU::fresh("own_counter")), Counter(SymU::fresh("their_counter")));
+            let a = pad_access::make(&sk(1), ca, b"own", Some(&sk(1)));
+            let b = pad_access::make(&sk(1), cb, b"theirs", Some(&sk(1)));
+            let key = a.network_address().to_record_key();
+            (key.clone(), rec(&key, try_serialize_record(&a, RecordKind::Scratchpad).unwrap().to_vec()), rec(&key, try_serialize_record(&b, RecordKind::Scratchpad).unwrap().to_vec()))
+        }
+    };
+    note(format!("{kind:?}: the node holds one version, the advertising holder serves another"));
+    // the node's own version arrived earlier and is settled
+    let _ = block_on(c.node.store_replicated_in_record(own.clone()));
+    c.net.complete_writes();
+    check_bool("converge:setup_own_version_is_held", c.net.inner.store.borrow().get(&key).is_some());
+    *c.net.inner.peer_reply.borrow_mut() = Some(Response::Query(QueryResponse::GetReplicatedRecord(Ok((NetworkAddress::from_peer(holder), Bytes::from(theirs.value.clone()))))));
+    c.node.fetch_replication_keys_without_wait(vec![(holder, key.clone())]).expect("spawned");
+    symrt::env::run_all_tasks();
+    c.net.complete_writes();
+    cover("fetched_divergent_version");
+    let stored = c.net.inner.store.borrow().get(&key).cloned();
+    let Some(stored) = stored else {
+        check_bool("converge:record_still_held_after_the_fetch", false);
+        return;
+    };
+    match kind {
+        Kind::Register => {
+            let got: SignedRegister = try_deserialize_record(&stored).expect("register");
+            let a: SignedRegister = try_deserialize_record(&own).unwrap();
+            let b: SignedRegister = try_deserialize_record(&theirs).unwrap();
+            let mut expect = a.clone();
+            expect.merge(&b).unwrap();
+            check_bool("converge:register_holds_the_union_of_both_replicas", got.ops() == expect.ops());
+        }
+        Kind::Transaction => {
+            let got: Vec<ant_protocol::storage::Transaction> = try_deserialize_record(&stored).expect("transactions");
+            let a: Vec<ant_protocol::storage::Transaction> = try_deserialize_record(&own).unwrap();
+            let b: Vec<ant_protocol::storage::Transaction> = try_deserialize_record(&theirs).unwrap();
+            check_bool("converge:transaction_set_is_the_union_of_both_replicas", got.len() == 2 && got.contains(&a[0]) && got.contains(&b[0]));
+        }
+        _ => {
+            let got: crate::scratchpad::Scratchpad = try_deserialize_record(&stored).expect("scratchpad");
+            let a: crate::scratchpad::Scratchpad = try_deserialize_record(&own).unwrap();
+            let b: crate::scratchpad::Scratchpad = try_deserialize_record(&theirs).unwrap();
+            // the higher counter wins; on equal counters either may stay
+            let (ca, cb, cg) = (a.count().0, b.count().0, got.count().0);
+            symrt::check("converge:scratchpad_with_the_higher_counter_is_held", ca.sle(cg).and(cb.sle(cg)).0);
+            check_bool("converge:held_scratchpad_is_validly_signed", got.is_valid());
+        }
+    }
 }
 
 fn c09_fetch_from_holder() {
